@@ -50,6 +50,31 @@ def scenarios(ctx):
         ops.append(("flag", 0))
         ops += [("run",)] + [(("run",) if rng.random() < 0.5 else ("result", rng.choice(names))) for _ in range(rng.randrange(0, 3))]
         out.append(Scenario(graphs.shuffled(rng, cmds), ops=ops))
+    # the program deep-copied (the original dropped) before, between and after runs: the copy is the same program, with what has finished
+    for _ in range(ctx.budget(20, 600)):
+        n = rng.randrange(2, 9)
+        cmds = graphs.dag_commands(rng, n)
+        ops = rand_ops(rng, cmds)
+        for _k in range(rng.randrange(1, 3)):
+            ops.insert(rng.randrange(len(ops) + 1), ("copy",))
+        if rng.random() < 0.5:
+            ops.insert(0, ("copy",))
+        out.append(Scenario(graphs.shuffled(rng, cmds), ops=ops))
+    # consumers added through the API with the referenced commands given as objects (directly, in lists, in nested lists), before anything has run
+    for _ in range(ctx.budget(20, 600)):
+        n = rng.randrange(1, 6)
+        cmds = graphs.dag_commands(rng, n)
+        names = [c[0] for c in cmds]
+        ops = []
+        for k in range(rng.randrange(1, 4)):
+            deps = [rng.choice(names) for _d in range(rng.randrange(1, 4))]
+            res, cmd, args = graphs.make_command(rng, "added%d" % k, "N", deps)
+            ops.append(("addobj", (res, cmd, args)))
+            names.append(res)
+        ops.append(("run",))
+        if rng.random() < 0.5:
+            ops.append(("result", rng.choice(names)))
+        out.append(Scenario(graphs.shuffled(rng, cmds), ops=ops))
     return out
 
 
@@ -91,7 +116,7 @@ def oracle(ctx, sc, res):
     if res["load"] != "ok" or any(o != "ok" for o in res["ops"]):
         ctx.fail("an acyclic well-formed model failed: load=%s ops=%s" % (res["load"], res["ops"]), sc.describe())
         return
-    names = [c[0] for c in sc.commands]
+    names = [c[0] for c in sc.commands] + [o[1][0] for o in sc.ops if o[0] in ("add", "addobj")]
     starts = [e[1:] for e in res["log"] if e[0] == "+"]
     did_run = any(o[0] == "run" for o in sc.ops)
     for n in names:
